@@ -256,7 +256,7 @@ func c12One(r *fw.Rec, ws *writerSpec) bool {
 		// kind of position (odd and even digit offsets, first, last), under each forced code set
 		n := 1 + rng.Intn(12)
 		rs := make([]rune, 0, n+3)
-		alpha := []string{"0123456789", "0123456789", "0123456789AB", "ab01", "\x00\x01\x1d\x1e\x1f !~\x7fA"}[rng.Intn(5)]
+		alpha := []string{"0123456789", "0123456789", "0123456789AB", "ab01", "\x00\x01\x1d\x1e\x1f !~\x7fA", "01234567890123456789a"}[rng.Intn(6)]
 		for i := 0; i < n; i++ {
 			rs = append(rs, rune(alpha[rng.Intn(len(alpha))]))
 		}
@@ -272,9 +272,14 @@ func c12One(r *fw.Rec, ws *writerSpec) bool {
 		if hints == nil {
 			hints = map[gozxing.EncodeHintType]interface{}{}
 		}
-		set := []string{"A", "B", "C", "C"}[rng.Intn(4)]
-		hints[gozxing.EncodeHintType_FORCE_CODE_SET] = set
-		hdesc += " FORCE_CODE_SET=" + set + " (code128 escape class)"
+		// ... and under the automatic choice of code sets, whose look-ahead over digit runs meets the escapes
+		if set := []string{"A", "B", "C", "C", "", "", ""}[rng.Intn(7)]; set != "" {
+			hints[gozxing.EncodeHintType_FORCE_CODE_SET] = set
+			hdesc += " FORCE_CODE_SET=" + set + " (code128 escape class)"
+		} else {
+			hdesc += " (code128 escape class, automatic code sets)"
+			r.Tally("code128_escape_contents_automatic_code_sets")
+		}
 	}
 	w, h := c12Dim(rng), c12Dim(rng)
 	if w == 20000 && h == 20000 && rng.Intn(4) != 0 {
@@ -427,6 +432,7 @@ func c12(c *fw.Ctx) {
 	c.Floor("calls_through_EncodeWithoutHint", 500)
 	c.Floor("cold_start_encodes", 33)
 	c.Floor("same_content_again_on_the_same_instance", 1000)
+	c.Floor("code128_escape_contents_automatic_code_sets", 300)
 	// every writer x every format value, valid content
 	c.Run("formats", func(r *fw.Rec) {
 		for wi := range allWriters {
